@@ -30,3 +30,21 @@ for _c, (_h, _sup, _nd, _ref, _lip) in _COV.items():
       what='%s::_evaluateCov, getMaxNDim: shape facts, published closed form, necessary positive-definiteness conditions per declared dimension' % _c,
       out='sufficiency of positive definiteness (all point sets); anisotropy/rotation/sill (CovAniso, Tensor); rounding of the <=20 floating operations',
       assumptions=['real-arithmetic reading of _evaluateCov; sqrt(2), sqrt(3) introduced as positive algebraic numbers'])
+
+# ---- C03.t the anisotropy tensor is rebuilt by every setter (added after seeded change r5_tensor_angle_stale)
+for _nd in (2, 3):
+    K('C03.t.%d' % _nd, property='C03', engine='symex', harness='C03/tensor.cpp',
+      entries=['k_set_radius_iso', 'k_set_radius_vec', 'k_set_radius_dir', 'k_set_angles', 'k_set_angle', 'k_set_angles_and_radius'],
+      tus=['src/Basic/Tensor.cpp', 'src/Basic/VectorHelper.cpp', 'src/Basic/Utilities.cpp', 'src/Basic/AStringable.cpp'], defines={'all': {'VF_ND': _nd}},
+      bounds={'quick': 'one setter call from an arbitrary consistent state, space dimension %d; arbitrary real ranges > 0.001 and angles (a continuum), every direction index' % _nd},
+      timeout_ms={'quick': 100000, 'thorough': 600000}, validate={'quick': 50, 'thorough': 100}, validate_doubles='int',
+      what='Tensor::setRadiusIsotropic, setRadiusVec, setRadiusDir, setRotationAngles, setRotationAngle, setRotationAnglesAndRadius, _updateIsotropic: '
+           'each stores what it is given and calls _fillTensors after its last change of (_radius, angles), so the matrices CovAniso measures distances with '
+           'belong to the ranges and angles the object reports (range measured along the rotated anisotropy axes)',
+      out='the content of _fillTensors itself (products of the rotation matrix by the ranges, Eigen inverse); Rotation::setAngles matrices (trigonometry); '
+          'Tensor::setRotation(const Rotation&), setTensorDirect2; sequences of setters (each is an inductive step from a consistent state)',
+      assumptions=['pre-state consistent (tensors built from the current ranges and angles); ranges > 0.001 (null radius is refused with an exception: not exercised)'],
+      stubs=['Tensor::_fillTensors -> ghost snapshot of (_radius, _rotation._angles) and a call counter',
+             'Rotation::setAngles -> angle bookkeeping of the real one (copy, resize to ndim, second angle 0 in 2-D) without the rotation matrices',
+             'Tensor object is raw storage: _nDim, _radius, _isotropic, _flagDefinedBySquare, _rotation._nDim/_flagRot/_angles initialised by the harness',
+             'messerr: empty'])
